@@ -65,12 +65,21 @@ class Builtin(Ext):
         self.name = name
         self.fn = fn
         self.lenient = lenient          # a contract stub that deliberately accepts and ignores any keyword argument
+        self.attrs = {}
 
     def py_call(self, I, args, kwargs):
         if kwargs and not self.lenient and not _reads_kwargs(self.fn):
             # a model that never looks at its keyword arguments would silently ignore axis=, dtype=, out=, ...: refuse instead
             raise Unsupported(f"{self.name}: keyword argument(s) {sorted(kwargs)} not modelled")
         return self.fn(I, args, kwargs)
+
+    def py_getattr(self, I, name):
+        if name in ("__name__", "__qualname__"):
+            return self.name.rsplit(".", 1)[-1]
+        if name in self.attrs:
+            return self.attrs[name]
+        # the real function / class may well have this attribute (chain.from_iterable, dict.fromkeys, ...): out of reach
+        raise Unsupported(f"{self.name}.{name} is not modelled")
 
     def __repr__(self):
         return f"<builtin {self.name}>"
